@@ -16,7 +16,7 @@ ASSUMPTIONS = [
 ]
 SHARDS = E.SHARDS
 TIMEOUT = E.TIMEOUT
-MINIMUMS = {"quick": {"distinct_plan_trace": 3000, "launch_events": 8000, "feature:how:direct": 20, "feature:how:lst": 20, "feature:how:dct": 20, "feature:how:holder_t": 20, "feature:how:holder_ts": 20, "feature:how:art": 20, "feature:how:arts": 20, "feature:how:adct": 20, "feature:how:holder_a": 20, "feature:how:pre_t": 20, "feature:how:pre_art": 20, "feature:how:pre_nested_t": 20, "feature:how:init_art": 20, "feature:how:explicit": 20}, "thorough": {"distinct_plan_trace": 100000, "launch_events": 250000, "feature:how:init_art": 800, "feature:how:pre_nested_t": 800, "feature:how:adct": 800}}
-PROFILES = [PlanProfile(max_jobs=8, p_edge=0.5), PlanProfile(max_jobs=6, p_edge=0.6, tokens=1), PlanProfile(max_jobs=6, p_fail=0.2), PlanProfile(max_jobs=5, multi_run=0.6, p_fail=0.1)]
+MINIMUMS = {"quick": {"feature:cleaned": 40, "distinct_plan_trace": 3000, "launch_events": 8000, "feature:how:direct": 20, "feature:how:lst": 20, "feature:how:dct": 20, "feature:how:holder_t": 20, "feature:how:holder_ts": 20, "feature:how:art": 20, "feature:how:arts": 20, "feature:how:adct": 20, "feature:how:holder_a": 20, "feature:how:pre_t": 20, "feature:how:pre_art": 20, "feature:how:pre_nested_t": 20, "feature:how:init_art": 20, "feature:how:explicit": 20}, "thorough": {"distinct_plan_trace": 100000, "launch_events": 250000, "feature:how:init_art": 800, "feature:how:pre_nested_t": 800, "feature:how:adct": 800}}
+PROFILES = [PlanProfile(max_jobs=8, p_edge=0.5), PlanProfile(max_jobs=6, p_edge=0.6, tokens=1), PlanProfile(max_jobs=6, p_fail=0.2), PlanProfile(max_jobs=5, multi_run=0.6, p_fail=0.1), PlanProfile(max_jobs=5, multi_run=1.0, p_abort=0.2, p_clean=0.9, p_edge=0.6)]
 worker = E.make_worker(PROPERTY, PROFILES, {"quick": 1280, "thorough": 40000}, {"quick": 5, "thorough": 6}, nontrivial=lambda plan: len(plan["jobs"]) >= 2 and any(j["deps"] for j in plan["jobs"]))
 replay = E.make_replay(PROPERTY)
